@@ -36,10 +36,12 @@ class PostOrderIterator(Iterator[Block]):
             self.stack.append((block, True))
             term = block.last_op
             if isinstance(term, Operation) and term.has_trait(IsTerminator()):
-                self.stack.extend(
-                    (x, False) for x in reversed(term.successors) if x not in self.seen
-                )
-                self.seen.update(term.successors)
+                # A block may be listed several times as a successor, visit it once
+                unseen = [
+                    x for x in dict.fromkeys(term.successors) if x not in self.seen
+                ]
+                self.stack.extend((x, False) for x in reversed(unseen))
+                self.seen.update(unseen)
             # stack cannot be empty here
             (block, visited) = self.stack.pop()
         return block
